@@ -37,7 +37,7 @@ def main(pid, tier, seed):
     qtraces, etraces, meta, strings = [], [], {}, []
     tid = 0
     rdirs = []
-    for k in range(12 if tier == 'quick' else 120):
+    for k in range(12 if tier == 'quick' else 400):
         d = os.path.join(work, 'r%d' % k)
         desc = [expand.tie_group_ruleset, expand.dyadic_prince_ruleset, expand.rich_ruleset, ptq.random_float_ruleset][k % 4](rng, d)
         rdirs.append((d, desc))
@@ -101,7 +101,7 @@ def main(pid, tier, seed):
     rcopy = core.repo_copy('cli')
     jobs = []
     n_preexisting = [0]
-    for k, (d, desc, flags, full) in enumerate(cli_jobs[:8] if tier == 'quick' else cli_jobs[:60]):
+    for k, (d, desc, flags, full) in enumerate(cli_jobs[:8] if tier == 'quick' else cli_jobs[:150]):
         name = 'v%d' % k
         os.symlink(d, os.path.join(rcopy, 'Rules', name))
         total = len(full)
